@@ -35,12 +35,15 @@ ASSUMPTIONS = [
     "the JUnit root attribute `tests` counts PASSED tests only (observed, not a finding: the property speaks of per-suite counters)",
 ]
 RULE = ("a generated report rendered through the real JUnit backend, ReportStats, build_message, the console summary, and pairs of "
-        "reports through compute_diff; non-trivial = at least 2 tests with at least 2 different statuses (views) / at least one test "
+        "reports through compute_diff; C20.live: the views evaluated at several moments on ONE live report the real writer is filling "
+        "(JUnit file session attached), and real runs with console+json+junit (non-trivial = two evaluations that see different numbers "
+        "of tests / a real run of >= 2 tests whose JUnit file was saved before the end); non-trivial = at least 2 tests with at least 2 different statuses (views) / at least one test "
         "in each of two diff classes (diff); distinct = hash of the case")
 EXPLANATION = ("Theorems: under the writer invariant the JUnit export marks a finished test failed/errored iff its status is failed and "
                "skipped iff skipped (refuted for in-progress tests, D7); per-suite counters, statistics, message variables and the "
                "console numbers equal the counts over Report.all_tests(); compute_diff partitions both test lists and is empty on "
-               "equal inputs. The model is tied to the code by rendering generated reports with the real backends.")
+               "equal inputs. Every evaluation of a view on a live report gives the counts of the report as it is at that moment "
+               "(live_views_count_the_report_as_it_is). The model is tied to the code by rendering generated reports with the real backends.")
 
 ANSI = re.compile(r"\x1b\[[0-9;]*m")
 
